@@ -11,9 +11,11 @@ for r in res:
         if m:
             s = json.loads(m.group(1))
             sigs.append(f"{s[1]} {s[2]}{('/' + s[3]) if s[3] else ''} {s[4]} ({m.group(2)}x)")
-    rows.append(f"| {r['id']} | {r['source']} | {r['property']} | {'caught' if r['caught'] else 'MISSED'} | {'; '.join(sigs[:2])} |")
-caught = sum(r["caught"] for r in res)
-text = (f"### 8.8 Last complete sensitivity run\n\n{caught}/{len(res)} changes caught by the quick tier of their property "
+    rows.append(f"| {r['id']} | {r['source']} | {r['property']} | {('silent (benign change)' if r['exit'] == 0 else 'FALSE ALARM') if r.get('expected') == 'pass' else ('caught' if r['caught'] else 'MISSED')} | {'; '.join(sigs[:2])} |")
+harm = [r for r in res if r.get("expected") != "pass"]
+ben = [r for r in res if r.get("expected") == "pass"]
+caught = sum(r["caught"] for r in harm)
+text = (f"### 8.8 Last complete sensitivity run\n\n{caught}/{len(harm)} harmful changes caught and {sum(r['exit'] == 0 for r in ben)}/{len(ben)} behaviour-preserving changes left silent by the quick tier of their property "
         f"(each VIOLATION was minimised and its replay reproduced in a fresh process).\n\n" + "\n".join(rows) + "\n\n")
 p = os.path.join(HERE, "DESIGN.md")
 s = open(p).read()
